@@ -52,7 +52,11 @@ Record half := mkH {
 
 Record cinfo := mkCI { ci_pref : bool; ci_drate : N; ci_urate : N }.
 Definition dci := mkCI false 0 0.
-Record env := mkEnv { v_dir : dir; v_now : Z; v_other : list cstat; v_ci : list cinfo }.
+(* v_hold: the hold-off (microseconds) after the last choke-state change before a connection may be
+   unchoked outside the regular cycle, in set_queued (fst) and in set_not_snubbed (snd). The property
+   does not fix these constants: they are probed from the compiled code (harness --params) and every
+   theorem holds for all values. *)
+Record env := mkEnv { v_dir : dir; v_now : Z; v_other : list cstat; v_ci : list cinfo; v_hold : Z * Z }.
 
 Definition unlimited : N := 4294967295.
 Definition ob : N := 1073741824.                 (* choke_queue::order_base *)
@@ -231,11 +235,11 @@ Definition all_new (v : env) : bool := match v_dir v with Dn => true | Up => fal
 (* PeerConnectionBase::should_connection_unchoke (the queue is always the torrent's own) *)
 Definition should_unchoke (h : half) (t : nat) : bool := (gettn h t <? Z.of_N (e_max (getent h t)))%Z.
 
-Definition try_unchoke_new (v : env) (c : nat) (h : half) : res half :=
+Definition try_unchoke_new (v : env) (hold : Z) (c : nat) (h : half) : res half :=
   let t := tor_of h c in
   let g := grp_of h t in
   if negb (is_full (getq h g)) && (all_new v || (0 <? can_unchoke h)%Z) && should_unchoke h t
-     && (cs_t (getcs h c) + 10000000 <? v_now v)%Z
+     && (cs_t (getcs h c) + hold <? v_now v)%Z
   then do r <- slot v c false h; recv_unchoke 1 (fst r)
   else Ok h.
 
@@ -255,7 +259,7 @@ Definition set_queued (v : env) (c : nat) (h : half) : res half :=
   if cs_q s || cs_u s then Ok h else
   let h1 := updcs c (set_q true) h in
   if cs_s s then Ok h1 else
-  do h2 <- connection_queued c h1; try_unchoke_new v c h2.
+  do h2 <- connection_queued c h1; try_unchoke_new v (fst (v_hold v)) c h2.
 
 Definition set_not_queued (v : env) (c : nat) (h : half) : res half :=
   let s := getcs h c in
@@ -282,7 +286,7 @@ Definition set_not_snubbed (v : env) (c : nat) (h : half) : res half :=
   let h1 := updcs c (set_s false) h in
   if negb (cs_q s) then Ok h1 else
   if cs_u s then Err EInternal else
-  do h2 <- connection_queued c h1; try_unchoke_new v c h2.
+  do h2 <- connection_queued c h1; try_unchoke_new v (snd (v_hold v)) c h2.
 
 (* PeerConnectionBase::cleanup (the two counter lines) + choke_queue::disconnected *)
 Definition close_half (c : nat) (h : half) : res half :=
@@ -569,7 +573,7 @@ Definition move_half (t g' : nat) (h : half) : res half :=
   end.
 
 (* ---------------------------------------------------------------- whole state and ops *)
-Record st := mkSt { s_up : half; s_dn : half; s_ci : list cinfo; s_now : Z }.
+Record st := mkSt { s_up : half; s_dn : half; s_ci : list cinfo; s_now : Z; s_hold : Z * Z }.
 
 Inductive op :=
 | ONew (t : nat)
@@ -594,9 +598,9 @@ Inductive op :=
 
 Definition get_half (d : dir) (s : st) := match d with Up => s_up s | Dn => s_dn s end.
 Definition set_half (d : dir) (h : half) (s : st) :=
-  match d with Up => mkSt h (s_dn s) (s_ci s) (s_now s) | Dn => mkSt (s_up s) h (s_ci s) (s_now s) end.
+  match d with Up => mkSt h (s_dn s) (s_ci s) (s_now s) (s_hold s) | Dn => mkSt (s_up s) h (s_ci s) (s_now s) (s_hold s) end.
 Definition env_of (d : dir) (s : st) : env :=
-  mkEnv d (s_now s) (h_cs (get_half (match d with Up => Dn | Dn => Up end) s)) (s_ci s).
+  mkEnv d (s_now s) (h_cs (get_half (match d with Up => Dn | Dn => Up end) s)) (s_ci s) (s_hold s).
 
 Definition empty_half (ntor ngrp : nat) (heur : nat) : half :=
   mkH [] [] (repeat (mkEnt unlimited 0 [] []) ntor) (repeat 0%Z ntor) (repeat O ntor)
@@ -605,7 +609,9 @@ Definition empty_half (ntor ngrp : nat) (heur : nat) : half :=
        | S k => mkQ unlimited 0 0 heur (seq 0 ntor) :: repeat (mkQ unlimited 0 0 heur []) k
        end) 0%Z 0 [].
 (* ngrp x push_group, then ntor x insert(download, priority) (all into group 0) *)
-Definition init (ntor ngrp : nat) : st := mkSt (empty_half ntor ngrp 0) (empty_half ntor ngrp 3) [] 31536000000000%Z.
+Definition init_h (hold : Z * Z) (ntor ngrp : nat) : st := mkSt (empty_half ntor ngrp 0) (empty_half ntor ngrp 3) [] 31536000000000%Z hold.
+(* the constants of the registered tree (10 s); theorems are stated for init_h with any hold-off *)
+Definition init (ntor ngrp : nat) : st := init_h (10000000%Z, 10000000%Z) ntor ngrp.
 
 (* The two halves always have the same dimensions, the same torrent -> group map and the same
    liveness flags (the dump prints them for both); ONew / OClose / OSetGroup test both halves. *)
@@ -623,7 +629,7 @@ Definition step (s : st) (o : op) (rs : list N) : res st :=
     if Nat.ltb t nt && Nat.ltb t (length (h_ents (s_dn s))) then
       let add h := mkH (h_cs h ++ [mkCS true false false false false 0%Z]) (h_ctor h ++ [t])
                        (h_ents h) (h_tn h) (h_tgrp h) (h_qs h) (h_cur h) (h_max h) (h_rs h) in
-      Ok (mkSt (add (s_up s)) (add (s_dn s)) (s_ci s ++ [dci]) (s_now s))
+      Ok (mkSt (add (s_up s)) (add (s_dn s)) (s_ci s ++ [dci]) (s_now s) (s_hold s))
     else Ok s
   | OQueue d c =>
     if alive (get_half d s) c then on_half d rs s (fun v h => set_queued v c (updcs c (set_rd d true) h)) else Ok s
@@ -664,9 +670,9 @@ Definition step (s : st) (o : op) (rs : list N) : res st :=
       do s1 <- on_half Up rs s (fun _ h => move_half t g h);
       on_half Dn rs s1 (fun _ h => move_half t g h)
     else Ok s
-  | OAdvance dt => Ok (mkSt (s_up s) (s_dn s) (s_ci s) (s_now s + dt)%Z)
+  | OAdvance dt => Ok (mkSt (s_up s) (s_dn s) (s_ci s) (s_now s + dt)%Z (s_hold s))
   | ORate c pref dr ur =>
-    if Nat.ltb c nc then Ok (mkSt (s_up s) (s_dn s) (upd c (fun _ => mkCI pref dr ur) (s_ci s)) (s_now s)) else Ok s
+    if Nat.ltb c nc then Ok (mkSt (s_up s) (s_dn s) (upd c (fun _ => mkCI pref dr ur) (s_ci s)) (s_now s) (s_hold s)) else Ok s
   end.
 
 Fixpoint run (s : st) (ops : list (op * list N)) : res st :=
